@@ -38,6 +38,10 @@ TRUSTED_BASE = [
     "axioms allowed in property theorems: propext, Classical.choice, Quot.sound "
     "(no native_decide / bv_decide / own axioms / sorry)",
     "kernel translator harness/translate (Python ast -> TopSearch.Py.Expr terms)",
+    "transcription tie harness/translate/skeleton.py: the normal form (what it forgets: names of locals, spellings, pure "
+    "helper locals, log statements, guard style, orientation of `not` / != / is not / not in) and the recorded texts in "
+    "skeleton_baseline.json; carried-state analysis harness/translate/carried.py (conservative read-before-write, shared "
+    "class attributes, mutable defaults, module state) with the reasons recorded in carried_baseline.json",
     "line-protocol drivers lean/Drivers/*.lean (parsing/printing) and the Python "
     "correspondence harness with its canonicalisation",
     "theorems are in exact arithmetic over ordered fields; IEEE-754 rounding is only "
